@@ -10,3 +10,26 @@ def witness(name):
         WITNESS[name] = f
         return f
     return deco
+
+
+@witness("c17_late_structure")
+def c17_late_structure(v):
+    """Known finding C17/KF-1: inherited tuples that first become visible in an `old` copy never
+    fire rules. It needs structure (dom / cod, or the constants they are derived from by rules)
+    to arrive after a member fact had a chance to age: a close() between a fact and a dom / cod
+    assertion, or dom / cod derived by rules."""
+    if not v["class"].endswith("/late-structure"):
+        return False
+    ops = v.get("case", {}).get("ops_readable", [])
+    if any(o.startswith(("insert_oa(", "insert_ob(", "insert_fm(")) for o in ops):
+        return True
+    fact_seen = aged = False
+    for o in ops:
+        if o.startswith(("insert_mo_mor_dom(", "insert_mo_mor_cod(")):
+            if aged:
+                return True
+        elif o.startswith("insert_"):
+            fact_seen = True
+        elif o.startswith("close"):
+            aged = aged or fact_seen
+    return False
